@@ -56,7 +56,9 @@ MUTATORS = {
     'commit_update': ('commitUpdate', 'PATCH', '/api/v1alpha/batches/{batch_id}/updates/{update_id}/commit'),
     'close_batch': ('closeBatch', 'PATCH', '/api/v1alpha/batches/{batch_id}/close'),
 }
-WHO = ['owner', 'mate', 'stranger', 'developer']
+WHO = ['owner', 'mate', 'stranger', 'developer', 'namesake']     # namesake = account `Alice` (owner is `alice`), no memberships
+LISTINGS = ['/api/v1alpha/batches', '/api/v2alpha/batches', '/api/v1alpha/batches/completed']
+KEY_CI = 'username filters on batches.user / billing_project_users.user are case-insensitive: a namesake account passes them'
 # keys of the two defects repaired by 4c50f4344 (kept so that a regression is reported under a stable name)
 KEY_FAST = 'update_batch_fast: a non-owner who sends an existing update token with empty bunch/job_groups commits the update'
 KEY_CREATE = 'create_update: a non-owner who sends an existing update token gets 2xx with the update ids instead of an error'
@@ -78,8 +80,11 @@ class C14(Prop):
                   'the caller is an active authenticated user and, for batch-scoped read/cancel/delete, a member of the batch\'s billing project, '
                   'for billing-project administration a developer or the auth service; a refused request leaves the state unchanged. '
                   'Owner-only mutators: all seven start with the owner-filtered SELECT (extracted, owner_filter_first), and in the model of '
-                  'their control flow a non-owner is refused without change whatever update token the request carries (owner_only). The '
-                  'control flow before commit 4c50f4344 (token lookup without user filter) is kept as mutateOld with its refutation.')
+                  'their control flow a non-owner is refused without change whatever update token the request carries — PROVIDED the caller '
+                  'is not a namesake of the owner (owner_only_partial): batches.user and billing_project_users.user are case-insensitive '
+                  'columns, so the account `Alice` passes every owner filter and the listings of `alice` (known finding, refuted in Lean as '
+                  'owner_only_fails / all_user_filters_case_sensitive_fails); _user_can_access compares user_cs (member_filter_case_sensitive). '
+                  'The control flow before commit 4c50f4344 is kept as mutateOld with its refutation.')
     level_note = ('PARTIAL for the owner-only mutators: `mutate` is a hand model of which check comes first, tied to the real handlers only by '
                   'the 39 scenario runs over minisql (MySQL itself is not available; the deprecated close_batch answers 500 to every caller on the current schema — Unknown column job_groups.deleted — so its owner case is not run). The decorator semantics (`guard`) are tied by exhaustive '
                   'differential runs (68 routes x 128 callers) with the session lookup stubbed at Authenticator._fetch_userdata and aiohttp '
@@ -96,7 +101,7 @@ class C14(Prop):
     assumptions = ['the session lookup (_fetch_userdata / auth service) returns the true userdata of the caller',
                    'aiohttp dispatches a request only to the handler object registered for its method and path',
                    'decorators can reach the handler body only through the function they wrap (Python closure semantics)',
-                   ]
+                   'no account has a name equal to another account\'s name up to case/accents (hypothesis of owner_only_partial; false in general: auth usernames are unique case-SENSITIVELY)']
     budget = {'quick': 0, 'thorough': 0}          # the case space is enumerated completely in both tiers
     search_budget = {'quick': 0, 'thorough': 0}
 
@@ -222,6 +227,10 @@ class C14(Prop):
         if st[0] != 200:
             raise MachineryError(f'scenario: owner could not upload the job: {st}')
         self.snap_full = db.snapshot()
+        # for the listings: the same, with alice's batch A1 marked completed (so that /batches/completed can list it)
+        db.execute("UPDATE batches SET time_completed = 1 WHERE id = %s", (self.A1,))
+        self.snap_done = db.snapshot()
+        db.restore(self.snap_full)
         self.passthrough = False
 
     def _request(self, method, path_t, match, body):
@@ -253,11 +262,17 @@ class C14(Prop):
     def cases(self, rng, n, tier):
         for r in self.table:
             for bits in range(128):
-                yield {'kind': 'guard', 'route': [r['method'].upper(), r['path']],
-                       'caller': {f: bool(bits >> j & 1) for j, f in enumerate(CALLER_FIELDS)}}
+                cl = {f: bool(bits >> j & 1) for j, f in enumerate(CALLER_FIELDS)}
+                yield {'kind': 'guard', 'route': [r['method'].upper(), r['path']], 'caller': cl}
+                if cl['hasSession'] and not (cl['isAuth'] or cl['member'] or cl['owner']):
+                    # a different account whose name equals a member's (and the owner's) name up to case: `Alice` on alice's batch
+                    yield {'kind': 'guard', 'route': [r['method'].upper(), r['path']], 'caller': {**cl, 'namesake': True}}
+        for path in LISTINGS:
+            for who in WHO:
+                yield {'kind': 'list', 'route': path, 'who': who}
         for h in MUTATORS:
             for who in WHO:
-                if h == 'close_batch' and who == 'owner':
+                if h == 'close_batch' and who in ('owner', 'namesake'):
                     # on the current schema the deprecated close_batch fails for EVERY caller (its first SELECT reads job_groups.deleted,
                     # a column that only `batches` has -> 1054 -> 500), so there is no owner success to compare; non-owners are still run
                     continue
@@ -276,8 +291,10 @@ class C14(Prop):
     def model_lines(self, c):
         if c['kind'] == 'guard':
             return ['guard %d %s' % (self._index(c['route']), ' '.join('1' if c['caller'][f] else '0' for f in CALLER_FIELDS))]
+        if c['kind'] == 'list':
+            return ['list %d %d' % (c['who'] in ('owner', 'mate'), c['who'] == 'namesake')]
         m = MUTATORS[c['handler']][0]
-        return ['mut %s %d %d %d' % (m, c['who'] == 'owner', c['token'] == 'known', c['payload'] == 'empty')]
+        return ['mut %s %d %d %d %d' % (m, c['who'] == 'owner', c['token'] == 'known', c['payload'] == 'empty', c['who'] == 'namesake')]
 
     # ---- guards ---------------------------------------------------------------------------------------------------------------
     def _guard(self, c):
@@ -310,13 +327,17 @@ class C14(Prop):
         if key in self.bare:
             return True, f'{method} {path_t} allow {cls}', []
         name = 'auth' if cl['isAuth'] else 'alice'
+        namesake = bool(cl.get('namesake'))
+        if namesake:
+            name = 'Alice'
         userdata = None
         if cl['hasSession']:
             userdata = self.ud(name, dev=1 if cl['developer'] else 0, state='active' if cl['active'] else 'inactive')
         match = {}
         for p in re.findall(r'\{(\w+)\}', path_t):
             if p == 'batch_id':
-                match[p] = self.batch_for[(cl['isAuth'], cl['member'], cl['owner'])] if cl['batchIdOk'] else 'abc'
+                bkey = (False, True, True) if namesake else (cl['isAuth'], cl['member'], cl['owner'])
+                match[p] = self.batch_for[bkey] if cl['batchIdOk'] else 'abc'
             else:
                 match[p] = '1'
         pool = self.app['db'].pool
@@ -337,7 +358,7 @@ class C14(Prop):
     def _owner_run(self, c):
         h, who, tok, payload = c['handler'], c['who'], c['token'], c['payload']
         _, method, path_t = MUTATORS[h]
-        user = {'owner': 'alice', 'mate': 'bob', 'stranger': 'carol', 'developer': 'dave'}[who]
+        user = {'owner': 'alice', 'mate': 'bob', 'stranger': 'carol', 'developer': 'dave', 'namesake': 'Alice'}[who]
         userdata = self.ud(user, dev=1 if who == 'developer' else 0)
         job = self.batchapp.job_spec(1)
         snap, match, body = self.snap_open, {'batch_id': self.A1}, None
@@ -376,9 +397,35 @@ class C14(Prop):
         changed = sorted(t for t in after if after[t] != before.get(t))
         return status, reason, changed
 
+    def _listing(self, c):
+        k = json.dumps(c, sort_keys=True)
+        if k not in self._cache:
+            user = {'owner': 'alice', 'mate': 'bob', 'stranger': 'carol', 'developer': 'dave', 'namesake': 'Alice'}[c['who']]
+            self.db.restore(self.snap_done)
+            self.passthrough = True
+            try:
+                r = self.real[('GET', c['route'])]
+                req = self.mk('GET', c['route'] + '?q=', match_info={}, app=self.app)
+                self.cur_userdata = self.ud(user, dev=1 if c['who'] == 'developer' else 0)
+                try:
+                    resp = self.loop.run_until_complete(r.handler(req))
+                    ids = [b['id'] for b in json.loads(resp.body).get('batches', [])]
+                    res = (resp.status, ids)
+                except self.web.HTTPException as e:
+                    res = (e.status, [])
+                except Exception as e:
+                    res = (500, [])
+            finally:
+                self.passthrough = False
+            self._cache[k] = res
+        return self._cache[k]
+
     def impl(self, c):
         if c['kind'] == 'guard':
             return [self._guard(c)[1]]
+        if c['kind'] == 'list':
+            status, ids = self._listing(c)
+            return ['listed' if self.A1 in ids else 'hidden']
         status, reason, changed = self._owner(c)
         return [f"{'ok' if 200 <= status < 300 else 'error'} {'changed' if changed else 'unchanged'}"]
 
@@ -394,6 +441,8 @@ class C14(Prop):
             method, path_t = r['method'].upper(), r['path']
             cls = py_required(method, path_t)
             who = ','.join(f for f in CALLER_FIELDS if c['caller'][f]) or 'anonymous'
+            if c['caller'].get('namesake'):
+                who += ',account `Alice` on a batch of `alice`'
             if entered is None:
                 return f'unguarded: {method} {path_t}: registered handler {r["handler"]} cannot be inspected ({line})'
             if entered and not established(cls, c['caller']):
@@ -401,6 +450,12 @@ class C14(Prop):
                         f'class {cls}')
             if not entered and writes:
                 return f'denied-but-wrote: {method} {path_t} ({r["handler"]}) refused [{who}] but executed {writes[0][:80]!r}'
+            return None
+        if c['kind'] == 'list':
+            status, ids = self._listing(c)
+            if c['who'] not in ('owner', 'mate') and self.A1 in ids:
+                return (f'listing {c["route"]}: {c["who"]} (not in the billing project, not the owner) is shown batch {self.A1} of '
+                        f'alice ({status}, ids {ids})')
             return None
         status, reason, changed = self._owner(c)
         ok = 200 <= status < 300
@@ -412,6 +467,9 @@ class C14(Prop):
         return None
 
     def finding_key(self, c, msg):
+        # one root cause: `batches.user` / `billing_project_users.user` are compared case-insensitively
+        if c.get('who') == 'namesake' and (c['kind'] == 'list' or (c['kind'] == 'owner' and c['handler'] != 'close_batch')):
+            return KEY_CI
         if c['kind'] == 'owner' and c['who'] != 'owner' and c['token'] == 'known':
             if c['handler'] == 'update_batch_fast' and c['payload'] == 'empty' and 'changed in' in msg:
                 return KEY_FAST
@@ -429,7 +487,7 @@ class C14(Prop):
             tags = ['guard:' + outcome, 'class:' + cls]
             nontrivial = outcome != 'allow' or cls != 'pub'
             return (json.dumps(c, sort_keys=True) if nontrivial else None, tags)
-        return (json.dumps(c, sort_keys=True), [f'owner-case:{c["who"]}:{line}'])
+        return (json.dumps(c, sort_keys=True), [f'{c["kind"]}-case:{c["who"]}:{line}'])
 
     def extra_checks(self, repo, tier, rng):
         """the generated table and the real RouteTableDef must list the same (method, path) registrations"""
